@@ -137,12 +137,14 @@ PLAN = {
             {"run": "TestC11_LRULinearizable", "checks": 1000, "race": True},
             {"run": "TestC11_FirstUse", "checks": 60, "race": True},
             {"run": "TestC11_OptionTwins", "checks": 150, "race": True},
+            {"run": "TestC11_LRUBound", "checks": 40, "race": True, "cores": 8},
         ],
         "thorough": [
             {"run": "TestC11_Programs", "checks": 7500, "race": True, "shards": 8, "timeout": 7200},
             {"run": "TestC11_LRULinearizable", "checks": 50000, "race": True, "shards": 8, "timeout": 7200},
             {"run": "TestC11_FirstUse", "checks": 5000, "race": True, "shards": 4, "timeout": 7200},
             {"run": "TestC11_OptionTwins", "checks": 8000, "race": True, "shards": 4, "timeout": 7200},
+            {"run": "TestC11_LRUBound", "checks": 1500, "race": True, "shards": 2, "cores": 8, "timeout": 7200},
         ],
     },
     "C12": {
@@ -186,10 +188,12 @@ PLAN = {
         "quick": [
             {"run": "TestC15_Matrix", "checks": 3},
             {"run": "TestC15_Transient", "checks": 400},
+            {"run": "TestC15_LongBudget", "checks": 150},
         ],
         "thorough": [
             {"run": "TestC15_Matrix", "checks": 520, "shards": 16, "timeout": 7200},
             {"run": "TestC15_Transient", "checks": 100000, "shards": 4, "timeout": 7200},
+            {"run": "TestC15_LongBudget", "checks": 20000, "shards": 4, "timeout": 7200},
         ],
     },
     "C16": {
@@ -235,6 +239,7 @@ PLAN = {
             {"run": "TestC19_Files", "checks": 75},
             {"run": "TestC19_Cosine", "checks": 20000},
             {"run": "TestC19_Search", "checks": 2000},
+            {"run": "TestC19_LoadHistory", "checks": 300},
             {"run": "TestC19_Replay"},
             {"run": "FuzzC19_EmbeddingFiles"},
         ],
@@ -242,6 +247,7 @@ PLAN = {
             {"run": "TestC19_Files", "checks": 15000, "shards": 8, "timeout": 7200},
             {"run": "TestC19_Cosine", "checks": 3000000, "shards": 4, "timeout": 7200},
             {"run": "TestC19_Search", "checks": 300000, "shards": 4, "timeout": 7200},
+            {"run": "TestC19_LoadHistory", "checks": 30000, "shards": 4, "timeout": 7200},
             {"run": "FuzzC19_EmbeddingFiles", "fuzz": "FuzzC19_EmbeddingFiles", "fuzztime": "360s", "parallel": 16, "timeout": 1500},
         ],
     },
